@@ -1,6 +1,7 @@
 package sim
 
 import (
+	"flag"
 	"fmt"
 	"io"
 	"math"
@@ -16,6 +17,8 @@ import (
 	"github.com/prometheus/client_golang/prometheus"
 	dto "github.com/prometheus/client_model/go"
 	log "github.com/sirupsen/logrus"
+	"k8s.io/client-go/kubernetes"
+	"k8s.io/klog/v2"
 )
 
 // GroupSpec is one configured node group plus the shape of its machines.
@@ -47,6 +50,8 @@ type Env struct {
 	Logs    *LogCapture
 
 	// BuildCalls counts provider builds (the first one per lifetime is construction)
+	// RealConstructor: build the controller with the real NewController instead of the mirroring hook
+	RealConstructor bool
 	BuildCalls int
 	podSeq     map[int]int
 	// GCLag: a Node whose instance is gone survives this many reconciles (0 = collected at once)
@@ -85,6 +90,13 @@ func init() {
 	log.SetLevel(log.InfoLevel)
 	log.AddHook(logCapture)
 	log.StandardLogger().ExitFunc = func(code int) { panic(FatalSignal{Code: code}) }
+	// client-go's reflectors report their (expected) watch failures through klog: keep them off stderr
+	fs := flag.NewFlagSet("klog", flag.ContinueOnError)
+	klog.InitFlags(fs)
+	fs.Set("logtostderr", "false")
+	fs.Set("alsologtostderr", "false")
+	fs.Set("stderrthreshold", "FATAL")
+	klog.SetOutput(io.Discard)
 }
 
 // SetLogLevel lets a run exercise the debug formatting paths as well.
@@ -147,9 +159,29 @@ func (e *Env) Start() error {
 		opts.NodeGroups = append(opts.NodeGroups, e.Groups[i].Opts)
 	}
 	e.Faults.ByIndex, e.Faults.ByNode, e.Faults.ByAPI, e.Faults.Ordinal, e.Faults.ByNodeUpdate = nil, nil, nil, nil, nil
-	ctl, err := controller.VerifNewController(opts, e.K.PodLister(), e.K.NodeLister(), e.stop)
-	if err != nil {
-		return err
+	var ctl *controller.Controller
+	var err error
+	if e.RealConstructor {
+		// the real NewController / NewClient: informers list once through a REST client served from the store,
+		// are stopped, and the controller is switched to the harness' snapshot listers
+		var rc kubernetes.Interface
+		rc, err = e.K.RESTBackedClient()
+		if err != nil {
+			return err
+		}
+		opts.K8SClient = rc
+		informerStop := make(chan struct{})
+		ctl, err = controller.NewController(opts, informerStop)
+		close(informerStop)
+		if err != nil {
+			return err
+		}
+		ctl.VerifUseListers(e.K.PodLister(), e.K.NodeLister())
+	} else {
+		ctl, err = controller.VerifNewController(opts, e.K.PodLister(), e.K.NodeLister(), e.stop)
+		if err != nil {
+			return err
+		}
 	}
 	e.Ctl = ctl
 	e.Epoch++
